@@ -263,6 +263,20 @@ impl TDigest {
         cumulative / self.total_weight
     }
 
+    /// Verification hook: read-only view of the digest state
+    /// (`(mean, weight)` per centroid, total weight, min, max, compression).
+    #[cfg(feature = "verif-hooks")]
+    #[must_use]
+    pub fn verif_state(&self) -> (Vec<(f64, f64)>, f64, f64, f64, f64) {
+        (
+            self.centroids.iter().map(|c| (c.mean, c.weight)).collect(),
+            self.total_weight,
+            self.min,
+            self.max,
+            self.compression,
+        )
+    }
+
     /// Get the total count of values added.
     #[must_use]
     pub const fn count(&self) -> f64 {
